@@ -129,7 +129,7 @@ def success(p):
 def run(chk, tier):
     P = Prog("default")
     chk.configs.add("default")
-    for r in (r_mustread, r_setter_boxes, r_setter_fields, r_resolve_year, r_absint):
+    for r in (r_mustread, r_verify_sets, r_ambiguous_pick, r_setter_boxes, r_setter_fields, r_resolve_year, r_absint):
         chk.guarded(r, P, tier)
     chk.assume("that resolution succeeds exactly on the documented sufficient combinations, and the error classification (not enough / impossible / out of range), are not decided")
     return {
@@ -180,6 +180,65 @@ def r_mustread(chk, P, tier):
                 return any(isinstance(c[1], str) and c[1] in (F + "to_naive_datetime_with_offset", F + "to_fixed_offset", F + "to_datetime") for c in p.calls)
             missing = [p for p in oks if not reads(p)]
             chk.expect(not missing, "%s:%s" % (fname, name), "%s can succeed on %d of %d paths without consulting `%s`" % (fname, len(missing), len(oks), name), loc=P.loc(fn))
+
+
+VERIFY_SETS = (("year", "year_div_100", "year_mod_100", "month", "day"),
+               ("isoyear", "isoyear_div_100", "isoyear_mod_100", "isoweek", "weekday"),
+               ("ordinal", "week_from_sun", "week_from_mon"))
+
+
+def r_verify_sets(chk, P, tier):
+    """to_naive_date cross-checks a candidate date against the supplied fields in three groups (its three verify closures): each group
+    must consult exactly its own fields - a field of the wrong calendar view (year_div_100 vs isoyear_div_100) is a different quantity"""
+    chk.rule("READS.verify", "the three consistency checks of to_naive_date consult exactly {year, year/100, year%100, month, day}, {ISO year, /100, %100, ISO week, weekday}, {ordinal, week_from_sun, week_from_mon}", floor=3)
+    fs = fields(P)
+    got = []
+    for c in P.closures_of(F + "to_naive_date"):
+        if c.count("{closure") != 1:
+            continue
+        r = set()
+        for v in block_reads(P, c).values():
+            r |= v
+        if r:
+            got.append((c, frozenset(fs[i] for i in r)))
+    for want in VERIFY_SETS:
+        match = [c for c, r in got if r == frozenset(want)]
+        near = [(c, r) for c, r in got if r & set(want)]
+        chk.expect(len(match) == 1, "verify {%s}" % ", ".join(want), "no verify closure of to_naive_date consults exactly {%s}; closest reads {%s}" % (
+            ", ".join(want), ", ".join(sorted(near[0][1])) if near else ""), loc=P.loc(near[0][0]) if near else P.loc(F + "to_naive_date"))
+
+
+def r_ambiguous_pick(chk, P, tier):
+    """to_datetime_with_timezone returns a zone candidate only if that very candidate passed the offset check, and for a repeated local
+    time only if the other candidate failed it (term identity between the returned payload and the checked argument)"""
+    chk.rule("PICK.offset_checked", "the date-time returned by to_datetime_with_timezone is the candidate whose offset check held on that path; for Ambiguous the other candidate's check failed", floor=3)
+    fn = F + "to_datetime_with_timezone"
+    oks = [p for p in Sym(P, fn).paths(max_paths=20000) if p.end[0] == "return" and result_variant(p.ret)[0] == "Ok"]
+    if len(oks) < 3:
+        raise AnchorLost("to_datetime_with_timezone: %d Ok paths" % len(oks))
+    seen = set()
+    for p in oks:
+        r = p.ret
+        if not (r[0] == "agg" and r[4]):
+            raise AnchorLost("unexpected Ok term " + pp(r)[:80])
+        x = r[4][0]
+        checks = {}
+        for c in p.conds:
+            t = c[1]
+            if isinstance(t, tuple) and t and t[0] == "call" and not isinstance(t[1], str) or (isinstance(t, tuple) and t and t[0] == "call" and "closure" in str(t[1])):
+                for a in walk_terms(t):
+                    if a[0] == "ref" and a[1][0] == "field" and a[1][1][0] == "as" and is_call(a[1][1][1]) and str(a[1][1][1][1]).endswith("from_local_datetime"):
+                        checks[a[1]] = (c[2] != 0)
+        variant = x[1][2] if x[0] == "field" and x[1][0] == "as" else "?"
+        key = (pp(x)[-40:], tuple(sorted((pp(k)[-30:], v) for k, v in checks.items())))
+        if key in seen:
+            continue
+        seen.add(key)
+        ok = checks.get(x) is True and all(v is False for k, v in checks.items() if k != x)
+        if variant == "Ambiguous":
+            ok = ok and len(checks) == 2
+        chk.expect(ok, "Ok(%s candidate %s)" % (variant, x[2] if x[0] == "field" else "?"), "to_datetime_with_timezone returns %s although the offset checks on this path were %s" % (
+            pp(x)[-60:], sorted((pp(k)[-24:], v) for k, v in checks.items())), loc=P.loc(fn))
 
 
 def r_setter_boxes(chk, P, tier):
